@@ -59,6 +59,11 @@ func (s LocalStore) GetChunk(id ChunkID) (*Chunk, error) {
 	if os.IsNotExist(err) {
 		return nil, ChunkMissing{id}
 	}
+	if err != nil {
+		// A chunk that can't be read (too many open files, permissions, I/O error) is
+		// neither missing nor invalid
+		return nil, err
+	}
 	return NewChunkFromStorage(id, b, s.converters, s.Opt.SkipVerify)
 }
 
